@@ -354,9 +354,11 @@ class CallMixin:
             for i, req in enumerate(c.requires):
                 self.check_spec(req, f'{site}::{fi.qualname}#req{i+1}', 'pre@call')
             old = (dict(env), dict(self.st.heap))
-            outcomes = ['normal'] + list(c.raises.keys())
+            outcomes = ([] if c.never_returns else ['normal']) + list(c.raises.keys())
             conds = []
-            if len(outcomes) > 1:
+            if c.never_returns and len(outcomes) == 1:
+                k = 0
+            elif len(outcomes) > 1:
                 sel = z3.Int(self.fresh_name('outcome'))
                 self.assume(z3.And(sel >= 0, sel < len(outcomes)))
                 conds = [sel == i for i in range(len(outcomes))]
@@ -385,7 +387,7 @@ class CallMixin:
                 else:
                     self.limit(f'modifies clause {loc!r} of {c.key} is not a heap location', node)
             fr.old = old
-            if k == 0:
+            if k == 0 and not c.never_returns:
                 if c.returns_ghost:
                     result = self.frames[0].env[c.returns_ghost]
                 else:
